@@ -109,6 +109,10 @@ fn c12_approve() {
     assert!(amount >= 0, "OBL C12.approve_rejects_negative");
     assert!(!(amount > 0 && exp < seq), "OBL C12.approve_rejects_past_expiration");
     assert!(allow_post(&from, &spender) == (amount, exp), "OBL C12.approve_stores_exact");
+    assert!(
+        amount == 0 || matches!(shim::temp_ttl_requested(&allow_key(&from, &spender)), Some(l) if (l as u64) + (seq as u64) >= exp as u64),
+        "OBL C12.allowance_lives_until_expiration: for a positive allowance the entry's lifetime is extended at least up to its expiration ledger (usable up to and including it)"
+    );
     assert!(temp().changed_only(&[Words::of(&allow_key(&from, &spender))]) && pers().n_changed() == 0 && inst().n_changed() == 0, "OBL C12.approve_frame: only the allowance of exactly (from, spender) changes");
     assert!(shim::n_events() == 1 && shim::event_is(0, &(Symbol::new(&env, "approve"), from.clone(), spender.clone()), &(amount, exp)), "OBL C12.approve_event");
     kani::cover!(amount > 0 && exp == seq, "COVER c12_approve expiring this ledger");
@@ -378,6 +382,8 @@ fn c11_token_views() {
     let env = Env::default();
     let _h = shim::fresh_host();
     let a = addr();
+    let admin = <T as StellarAssetInterface>::admin(env.clone());
+    assert!(inst().pre::<_, Address>(&OWNER_KEY) == Some(admin), "OBL C11.view_admin_is_owner: the token reports its owner (the service) as administrator");
     let id = <T as InterchainTokenInterface>::token_id(&env);
     let im = <T as InterchainTokenInterface>::is_minter(&env, a.clone());
     let dec = <T as token::Interface>::decimals(env.clone());
